@@ -297,3 +297,22 @@ Proof. intro H. apply crash_readable, site_in, H. Qed.
 
 Lemma trace_length s h bs : site_ok s -> length (trace s h bs) = (2 + length bs + (if closes s then 1 else 0))%nat.
 Proof. intro Hs. rewrite (trace_normal s h bs Hs). unfold norm_trace. rewrite !app_length, map_length. destruct (closes s); reflexivity. Qed.
+
+(** * batching of the multi-output writers: `for batch_start in range(0, n, batch_size)` opens filenames[lo:hi].
+      The slices of the regenerated arithmetic are valid and partition [0, n): output [i] is opened in batch [i / batch_size]
+      and in no other, so every output path is opened (truncated, header written) exactly once per call. *)
+Definition batch_partition (lo hi : Z -> Z -> Z -> Z) : Prop :=
+  forall n bs k, 1 <= bs -> 0 <= k -> k * bs < n ->
+    0 <= lo (k * bs) bs n <= hi (k * bs) bs n /\ hi (k * bs) bs n <= n /\
+    forall i, 0 <= i < n -> (lo (k * bs) bs n <= i < hi (k * bs) bs n <-> k = i / bs).
+
+Lemma batch_std : batch_partition (fun b _ _ => b) (fun b bs n => Z.min (b + bs) n).
+Proof. intros n bs k Hb Hk Hn. cbv beta. split; [nia|]. split; [lia|]. intros i Hi. split.
+  - intro H. apply (Z.div_unique i bs k (i - k * bs)); lia.
+  - intros ->. pose proof (Z.mul_div_le i bs ltac:(lia)). pose proof (Z.mod_pos_bound i bs ltac:(lia)).
+    pose proof (Z.div_mod i bs ltac:(lia)). nia. Qed.
+
+Lemma batch_extract_chans : batch_partition batch_lo_extract_chans batch_hi_extract_chans.
+Proof. exact batch_std. Qed.
+Lemma batch_extract_bands : batch_partition batch_lo_extract_bands batch_hi_extract_bands.
+Proof. exact batch_std. Qed.
